@@ -31,7 +31,7 @@ TStore ==
   /\ Ev.ev = "store"
   /\ docs' = Ev.docs
   /\ storedF' = {Ev.schema[i].name : i \in {j \in 1..Len(Ev.schema) : Ev.schema[j].stored}}
-  /\ cfg' = Ev.cfg /\ dead' = {} /\ seen' = {} /\ pbytes' = <<0, 0>>
+  /\ cfg' = (Ev.cfg @@ [case |-> Ev.case]) /\ dead' = {} /\ seen' = {} /\ pbytes' = <<0, 0>>
   /\ sizes' = <<>> /\ closed' = TRUE /\ cache' = <<>> /\ got' = <<>>
 
 TDeleted ==
@@ -50,11 +50,11 @@ Layout(e) ==
       blocks == Cut([i \in 1..n |-> i], e.sizes, cfg.blocksize)
       pred == SumBytes(blocks)
   IN IF e.phase = "commit"
-     THEN PrintT(<<"BLOCKS", Len(blocks), NumLayers(blocks), cfg.comp,
+     THEN PrintT(<<"BLOCKS", cfg.case, Len(blocks), NumLayers(blocks), cfg.comp,
                    IF cfg.comp = "none" THEN (IF pred = e.data_bytes THEN "layout-as-predicted" ELSE "LAYOUT-MISMATCH") ELSE "-">>)
      ELSE IF e.phase = "merge" /\ cfg.comp = "none"
      THEN \* number of blocks of the merged segment: data = documents + 4 * (documents + blocks)
-          PrintT(<<"MERGED", (e.data_bytes - (pred - 4 * Len(blocks))) \div 4, Len(blocks)>>)
+          PrintT(<<"MERGED", cfg.case, (e.data_bytes - (pred - 4 * Len(blocks))) \div 4, Len(blocks)>>)
      ELSE TRUE
 
 TSeg ==
